@@ -230,6 +230,16 @@ def run(ctx):
     if n < 3:
         ctx.fail("PAIR-BB: estimation entry points no longer reach set/reset_bb_switch_impedance")
     rule_effect(ctx)
+    # PAIR of the temporary outage of the contingency analysis (the listed exception of the EFFECT rule for ?.in_service is
+    # licensed only because the store is restored in a finally block: decided here, shared with C14/C15)
+    from rules import _contingency as cg
+    ctx.rule("PAIR-OUTAGE", "every temporary `net[element].at[i, 'in_service'] = False` of the contingency analysis is directly followed by "
+                            "a try statement whose finally block sets the same cell back to True (also when the evaluation raises)")
+    n = 0
+    for fq in ("pandapower.contingency.contingency:run_contingency", "pandapower.contingency.contingency_parallel:run_contingency_parallel"):
+        n += cg.rule_restore(ctx, "PAIR-OUTAGE", ctx.repo.func(fq))
+    if n < 2:
+        ctx.fail("PAIR-OUTAGE: temporary outage stores of the contingency analysis not found")
     # positive control for view tracking: the known idiom must be recognised on a synthetic overlay
     from ppsa.loader import Repo
     ctl = Repo(ctx.repo.root, overlay={"pandapower/_ppsa_control.py":
@@ -250,6 +260,7 @@ def variants(repo):
     opf = "pandapower/optimal_powerflow.py"
     V = Variant
     return [
+        V("contingency restore on normal path only", "pandapower/contingency/contingency.py", in_function("run_contingency", lambda s: s.replace("            finally:\n                net[element].at[i, 'in_service'] = True\n", "            net[element].at[i, 'in_service'] = True\n", 1)), "PAIR-OUTAGE"),
         V("vk view write back", bb, replace_once("            vk_value = vk_value.copy()\n", ""), "ALIASWRITE::pandapower.build_branch::_get_vk_values_from_table"),
         V("1ph double acquire back", sc, replace_once("    # pos. seq bus impedance (_init_ppc adds the auxiliary elements)\n", "    _add_auxiliary_elements(net)\n"), "_calc_sc_1ph"),
         V("powerflow early return skips release", pf, in_function("_ppci_to_net", replace_once("        raise\n    _clean_up(net)", "        raise\n    if net[\"_options\"][\"mode\"] == 'pf_3ph':\n        return\n    _clean_up(net)")), "normal-path"),
